@@ -6,6 +6,7 @@
 
 #include <tulz/container/Array.h>
 
+#include "../common/iterok.h"
 #include "../common/runner.h"
 #include "../common/tracked.h"
 
@@ -70,7 +71,7 @@ std::string observe(A &a) {
     std::string s = "{\"size\":" + std::to_string(n) + ",\"empty\":" + (a.empty() ? "true" : "false");
     s += ",\"items\":" + jlist(items) + ",\"iter\":" + jlist(iter) + ",\"citer\":" + jlist(citer) + ",\"raw\":" + jlist(raw);
     if (n > 0) s += ",\"front\":" + std::to_string(Val<T>::get(a.front())) + ",\"back\":" + std::to_string(Val<T>::get(a.back()));
-    bool itok = (size_t) (a.end() - a.begin()) == n && (size_t) std::distance(a.begin(), a.end()) == n;
+    bool itok = (size_t) (a.end() - a.begin()) == n && (size_t) std::distance(a.begin(), a.end()) == n && hr::iter_algebra_ok(a) && hr::iter_algebra_ok(ca);
     s += ",\"itok\":" + std::string(itok ? "true" : "false");
     return s + "}";
 }
